@@ -15,11 +15,11 @@ static const int CODES[11] = { CAT_RETURN_STATE_NEXT, CAT_RETURN_STATE_DATA_NEXT
 static int script[MAXS], slen;
 static int kind, fsm, nvars, rewrite, hold_status; static bool with_desc, crlf, tight;
 static int vr_fail, vw_fail, vr_calls, vw_calls;
-static int ninv; static char fresh0[256]; static bool have_fresh; static bool hold_pending;
+static int ninv; static char fresh0[256]; static bool have_fresh; static bool hold_pending; static int hold_delay;
 static char descr[600];
 static int TGT;      /* index of the command under test: 0, or 1 when a disabled command / a command of a disabled group comes first in the table */
 /* overflow cells: a READ of two variables on a capacity around the point where the separator lands on the last byte of the buffer; with a small event in flight next door */
-static int lead_disabled; static bool big_ubuf, qmark, tgt_disabled;
+static int lead_disabled; static bool big_ubuf, qmark, tgt_disabled, spurious_release;
 static bool ovf, conc_event; static int ovf_digits, ovf_delta, conc_units; static long conc_step; static bool conc_accepted;
 
 /* observed units */
@@ -67,7 +67,13 @@ static cat_return_state policy(struct hcall *h)
                         viol("C10", "stale-buffer", "write handler invocation %d saw args \"%.*s\" args_num %zu", k, (int)h->size, (const char *)h->data, h->args_num);
         }
         int c = k < slen ? script[k] : CAT_RETURN_STATE_OK;
-        if (c == CAT_RETURN_STATE_HOLD) hold_pending = true;
+        if (spurious_release && h->fsm == FSM_A && !hold_pending && (c == CAT_RETURN_STATE_NEXT || c == CAT_RETURN_STATE_DATA_NEXT) && chance(40)) {
+                /* a release request while the command is being processed but not held: refused, and without any effect on a hold that starts later */
+                cat_status s = cat_hold_exit(W.at, chance(50) ? CAT_STATUS_OK : CAT_STATUS_ERROR);
+                CNT("release_requests_from_a_handler_of_a_command_that_is_not_held");
+                if (s != CAT_STATUS_ERROR_NOT_HOLD) viol("C14", "release-accepted-outside-hold", "cat_hold_exit called while the command is processed but not held returned %d", (int)s);
+        }
+        if (c == CAT_RETURN_STATE_HOLD) { hold_pending = true; hold_delay = spurious_release ? (int)rn(6) : 0; }
         return (cat_return_state)c;
 }
 static int vpolicy(int ci, int vi, int dir, size_t wsize)
@@ -196,6 +202,7 @@ static void run_cell(void)
         for (i = 0; i < bound; i++) {
                 if (i == conc_step && fsm == FSM_A) conc_accepted = cat_trigger_unsolicited_event(W.at, W.cmd[TGT + 1], CAT_CMD_TYPE_READ) == CAT_STATUS_OK;
                 cat_status s = svc();
+                if (hold_pending && hold_delay > 0) { hold_delay--; CNT("service_calls_made_while_the_cell_is_held"); continue; }      /* the release comes a few calls later: nothing may end the hold before */
                 if (hold_pending) { hold_pending = false; if (cat_hold_exit(W.at, hold_status ? CAT_STATUS_ERROR : CAT_STATUS_OK) != CAT_STATUS_OK) viol("C14", "release-refused", "cat_hold_exit refused right after HOLD"); }
                 if (s == CAT_STATUS_OK && INPOS >= INLEN && i >= conc_step) { quiet = true; break; }
         }
@@ -251,7 +258,7 @@ struct case_budget chk_budget(const char *tier)
 void chk_run_case(uint64_t seed, long c, bool is_sweep)
 {
         (void)seed;
-        vr_fail = vw_fail = -1; hold_status = 0; descr[0] = 0; ovf = false; conc_event = false; lead_disabled = 0; big_ubuf = false; qmark = false; tgt_disabled = false;
+        vr_fail = vw_fail = -1; hold_status = 0; descr[0] = 0; ovf = false; conc_event = false; lead_disabled = 0; big_ubuf = false; qmark = false; tgt_disabled = false; spurious_release = false;
         if (is_sweep && c >= N_SWEEP_A) {      /* overflow cells: digits 1..10 x delta -2..+3 x FSM x code x bystander */
                 long k = c - N_SWEEP_A;
                 ovf = true; ovf_digits = 1 + (int)(k % 10); k /= 10; ovf_delta = (int)(k % 6) - 2; k /= 6; fsm = (int)(k % 2); k /= 2; conc_event = (k % 2) && fsm == FSM_A; k /= 2;
@@ -277,7 +284,7 @@ void chk_run_case(uint64_t seed, long c, bool is_sweep)
                 if (chance(50)) { sch_bern(&RS, 30 + rn(70), rnd()); sch_bern(&WS, 30 + rn(70), rnd()); }
                 if (fsm == FSM_A && chance(30)) conc_event = true;
                 if (chance(25)) lead_disabled = 1 + (int)rn(2);
-                big_ubuf = chance(50); qmark = chance(30); tgt_disabled = chance(25);
+                big_ubuf = chance(50); qmark = chance(30); tgt_disabled = chance(25); spurious_release = chance(25);
                 if (chance(12)) { ovf = true; kind = K_READ; nvars = 2; ovf_digits = 1 + (int)rn(10); ovf_delta = (int)rn(6) - 2; tight = false; }
         }
         if (!is_sweep) for (int i = 0; i < slen; i++) if (script[i] == 99 || script[i] == -7) {      /* values outside the enumeration: near it, congruent to a member modulo 2^8 / 2^16, the extremes of int */
